@@ -12,9 +12,11 @@ Pieces (all generic; the C18 specifics live in vt/checks/c18.py):
                state is ONE atomic step and a scheduling point.
   Exec         one execution: actors = Python threads run under a baton-passing scheduler
                (exactly one runs at a time; an actor parks just BEFORE each VFS step with
-               the step's label published).  Choices: run actor X / kill actor X.
-  Explorer     depth-first search over schedules; every execution re-runs the prefix on
-               fresh threads and a fresh VFS (threads cannot be snapshotted); preemption
+               the step's label published; the thread holding the baton takes the next
+               decision, so continuing the same actor costs no thread switch).  Choices:
+               run actor X / kill actor X (offered right after each step of a killable X).
+  Explorer     depth-first search over schedules; every execution re-runs the prefix from
+               scratch on a fresh VFS (threads cannot be snapshotted; OS threads are pooled); preemption
                bounding; crash budget; state cache keyed on (canonical VFS contents and
                mtimes, per-actor observation history, monitor state).
   replay()     re-executes a recorded schedule; any divergence (actor not enabled, or a
@@ -66,9 +68,13 @@ class _Worker(object):
 
 _TL = threading.local()
 _FREE = []
+_POOL_PID = [None]
 
 
 def _spawn(job):
+    if _POOL_PID[0] != _os.getpid():      # forked: the parent's pooled threads do not exist here
+        del _FREE[:]
+        _POOL_PID[0] = _os.getpid()
     w = _FREE.pop() if _FREE else _Worker()
     w.job = job
     w.go.release()
